@@ -394,6 +394,16 @@ package smtp
 //@   prop C11 C14
 //@   ensures @C11,C14 typed-address-decoded-or-refused: (err == nil) == taOK(val) && (err == nil ==> t == taType(val) && addr == taAddr(val)) && (err != nil ==> t == "" && addr == "")
 
+//@ contract parseCmd(line) (cmd, arg, err)
+//@   prop C03 C04 C19
+//@   ensures @C04 a-refused-line-yields-no-command: err != nil ==> cmd == "" && arg == ""
+//@   ensures @C04,C03 an-empty-line-is-no-command: len(resultof("strings.TrimRight", 1, 1)) == 0 ==> err == nil && cmd == "" && arg == ""
+//@   ensures @C04,C03 a-four-letter-line-is-that-verb: len(resultof("strings.TrimRight", 1, 1)) == 4 && !resultof("strings.HasPrefix", 1, 1) ==> err == nil && cmd == upperOf(resultof("strings.TrimRight", 1, 1)) && arg == ""
+//@   ensures @C04,C03 a-verb-a-blank-and-the-rest-is-a-command-with-its-argument: len(resultof("strings.TrimRight", 1, 1)) >= 6 && resultof("strings.TrimRight", 1, 1)[4] == 32 && !resultof("strings.HasPrefix", 1, 1) ==> err == nil && cmd == upperOf(resultof("strings.TrimRight", 1, 1)[0:4]) && arg == trimSpaceOf(resultof("strings.TrimRight", 1, 1)[5:])
+//@   ensures @C04 anything-else-is-refused: !resultof("strings.HasPrefix", 1, 1) && len(resultof("strings.TrimRight", 1, 1)) != 0 && len(resultof("strings.TrimRight", 1, 1)) != 4 && !(len(resultof("strings.TrimRight", 1, 1)) >= 6 && resultof("strings.TrimRight", 1, 1)[4] == 32) ==> err != nil
+//@   ensures @C04,C10 starttls-takes-no-argument: resultof("strings.HasPrefix", 1, 1) ==> err == nil && cmd == "STARTTLS" && arg == ""
+//@   ensures @C04 the-line-is-looked-at-without-its-line-break: called("strings.TrimRight") && resultof("strings.TrimRight", 1, 1) == trimRightOf(line, "\r\n")
+
 //@ contract parseArgs(s) (argMap, err)
 //@   prop C11 C19
 //@   fresh argMap if err == nil
@@ -858,6 +868,8 @@ package smtp
 //@   before (*strings.Builder).WriteString: @C15 only-negotiated-parameters: ($1 == " NOTIFY=" ==> has(c.ext, "DSN"))
 //@   before fmt.Fprintf: @C15 only-negotiated-parameters: ($1 == " ORCPT=%s;%s" ==> has(c.ext, "DSN"))
 //@   before fmt.Sprintf: @C15 only-negotiated-parameters: ($0 == " RRVS=%s" ==> has(c.ext, "RRVS"))
+//@   before (time.Time).Format: @C14 the-timestamp-sent-is-the-one-requested-in-rfc-3339-form: opts != nil && $0 == opts.RequireRecipientValidSince && $1 == "2006-01-02T15:04:05Z07:00"
+//@   before fmt.Sprintf: @C14 the-rrvs-value-is-the-formatted-timestamp: $0 == " RRVS=%s" ==> called("(time.Time).Format")
 //@   before (*Client).cmd: @C14 requested-notify-is-rendered: opts != nil && opts.Notify != nil && len(opts.Notify) != 0 && has(c.ext, "DSN") ==> contains(fmtline($2, $3), " NOTIFY=")
 //@   before (*Client).cmd: @C14 requested-orcpt-is-rendered: opts != nil && opts.OriginalRecipient != "" && has(c.ext, "DSN") ==> contains(fmtline($2, $3), " ORCPT=")
 //@   ensures @C15 nothing-written-for-bad-line: !noCRLF(to) ==> err != nil && c.text.cmds == old(c.text.cmds)
